@@ -247,6 +247,10 @@ pub fn payloads() -> Vec<Payload> {
             answered: true,
         });
     }
+    // a record-marked call carried by a datagram: completes the stream signature, answered by the
+    // stream responder (marked reply)
+    v.push(p("rpc-marked-getport-in-datagram", apprpc::with_record_mark(&apprpc::build_call(0x12345678, 2, 100000, 2, 3, &[], &[])), Via::UdpOnly, true));
+    v.push(p("rpc-marked-dump-in-datagram", apprpc::with_record_mark(&apprpc::build_call(0x12345678, 2, 100000, 4, 4, &[], &[])), Via::UdpOnly, true));
     v.push(p("dns-a", appdns::build_query(0x1337, 0x0100, &[(dns_labels("www.example.com"), 1, 1)]), Via::UdpOnly, true));
     v.push(p(
         "dns-a-2q",
